@@ -151,4 +151,25 @@ double good_r10_guarded(const unsigned short* s, unsigned long len)
         buf[i] = char(s[i]);
     return buf[0];
 }
+
+// ---- R9 (b): a report that does not end the path
+struct R9Ctx { enum eClass { eWarning, eError }; void problem(int src, eClass c, const char* msg) { if (c == eError) throw 1; } };
+
+int bad_r9_warning_falls_through(R9Ctx& ctx, const R9Node* ns)
+{
+    if (ns == 0)
+    {
+        ctx.problem(0, R9Ctx::eWarning, "not declared");
+    }
+    return ns->kind;
+}
+
+int good_r9_error_ends_path(R9Ctx& ctx, const R9Node* ns)
+{
+    if (ns == 0)
+    {
+        ctx.problem(0, R9Ctx::eError, "not declared");
+    }
+    return ns->kind;
+}
 }
